@@ -12,6 +12,7 @@ import (
 	"net/http/httptest"
 	"strings"
 	"sync"
+	"time"
 
 	restful "github.com/emicklei/go-restful/v3"
 )
@@ -199,7 +200,9 @@ func genEnt(r *Rng) Sx {
 	if r.Pct(20) || forceConc {
 		mode = 2 + r.Intn(4)
 	}
-	return L(r.Intn(2), []int{0, 1, 2, 8}[r.Intn(4)], A(r.Pick([]string{"", "", "application/json", "application/xml"})), mode, reqs)
+	// sixth field: the application re-registers the two standard media types with each other's accessors before the
+	// history (after every Content-Type spelling of the history was looked up once under the standard registry)
+	return L(r.Intn(2), []int{0, 1, 2, 8}[r.Intn(4)], A(r.Pick([]string{"", "", "application/json", "application/xml"})), mode, reqs, B(r.Pct(12)))
 }
 
 // the body of a request: written by go-restful's own entity writer, then encoded / broken with the standard library
@@ -362,7 +365,12 @@ func entServe(c *restful.Container, rq Sx, body []byte) Sx {
 	}
 	rec := httptest.NewRecorder()
 	class := 0
-	func() {
+	if poisoned {
+		return L(-2, A("")) // an earlier request of this process never came back: nothing more is sent
+	}
+	done := make(chan struct{})
+	go func() {
+		defer close(done)
 		defer func() {
 			if r := recover(); r != nil {
 				class = -1
@@ -378,6 +386,13 @@ func entServe(c *restful.Container, rq Sx, body []byte) Sx {
 			class = rec.Code
 		}
 	}()
+	select {
+	case <-done:
+	case <-time.After(20 * time.Second):
+		// the request never came back (a provider that blocks): class -2, and no further case in this process
+		poisoned = true
+		return L(-2, A(""))
+	}
 	out := ""
 	if class == 1 {
 		out = rec.Body.String()
@@ -387,6 +402,25 @@ func entServe(c *restful.Container, rq Sx, body []byte) Sx {
 
 func runEnt(raw Sx) (Sx, Sx) {
 	provider, capn, dflt, mode, reqs := sxInt(sxNth(raw, 0)), sxInt(sxNth(raw, 1)), sxStr(sxNth(raw, 2)), sxInt(sxNth(raw, 3)), sxList(sxNth(raw, 4))
+	swapped := len(sxList(raw)) > 5 && sxBool(sxNth(raw, 5))
+	if swapped {
+		// every spelling of the history is looked up once while the standard accessors are registered ...
+		warm := entContainer()
+		for _, rq := range reqs {
+			l := sxList(rq)
+			if len(l) > 7 {
+				l = l[:7]
+			}
+			entServe(warm, Ls(l), entBody(Ls(l)))
+		}
+		// ... then the application changes its mind: from now on every body is read by what is registered NOW
+		restful.RegisterEntityAccessor("application/json", restful.NewEntityAccessorXML("application/json"))
+		restful.RegisterEntityAccessor("application/xml", restful.NewEntityAccessorJSON("application/xml"))
+		defer func() {
+			restful.RegisterEntityAccessor("application/json", restful.NewEntityAccessorJSON("application/json"))
+			restful.RegisterEntityAccessor("application/xml", restful.NewEntityAccessorXML("application/xml"))
+		}()
+	}
 	ld := newLedger(mkProvider(provider, capn))
 	old := restful.CurrentCompressorProvider()
 	restful.SetCompressorProvider(ld)
@@ -441,7 +475,7 @@ func runEnt(raw Sx) (Sx, Sx) {
 	ld.mu.Lock()
 	led := L(ld.acq, ld.rel, ld.dbl, ld.unk, len(ld.held))
 	ld.mu.Unlock()
-	return L(Ls{}, provider, capn, A(dflt), mode, full), L(seq, fresh, conc, led)
+	return L(Ls{}, provider, capn, A(dflt), mode, full, B(swapped)), L(seq, fresh, conc, led)
 }
 
 func init() { domains["ent"] = domain{gen: genEnt, run: runEnt} }
